@@ -221,6 +221,8 @@ def extract(root):
         if m: cur_arm = m.group(1)
         if "loop_stack" in code and "let mut" not in code and cur_arm not in lsa: lsa.append(cur_arm)
     fr["loopStackArms"] = lsa
+    # panic-site audit: functions that contain `.unwrap()` / `.expect(` (library code, tests stripped)
+    fr["unwrapSites"] = sites(r"\.unwrap\(\)|\.expect\(")
     T["frame"] = fr
     # ---- documentation tables
     cmd = open(os.path.join(root, "command.md"), encoding="utf-8").read()
